@@ -38,28 +38,28 @@ func goid() int64 {
 type qItem struct{ P, K int }
 
 type qScenario struct {
-	ID        int   `json:"id"`
-	NProd     int   `json:"nprod"`
-	NCons     int   `json:"ncons"`
-	Items     int   `json:"items"`
-	WithClose bool  `json:"withClose"`
-	Quota     []int `json:"quota,omitempty"` // no-close scenarios: consumer i stops after Quota[i] items
-	Schedule  []int `json:"schedule,omitempty"`
+	ID        int    `json:"id"`
+	NProd     int    `json:"nprod"`
+	NCons     int    `json:"ncons"`
+	Items     int    `json:"items"`
+	WithClose bool   `json:"withClose"`
+	Quota     []int  `json:"quota,omitempty"` // no-close scenarios: consumer i stops after Quota[i] items
+	Schedule  []int  `json:"schedule,omitempty"`
 	Origin    string `json:"origin"`
-	Seed      int64 `json:"seed"`
-	ParkFirst bool  `json:"parkFirst,omitempty"` // let every consumer park before the first push
+	Seed      int64  `json:"seed"`
+	ParkFirst bool   `json:"parkFirst,omitempty"` // let every consumer park before the first push
 }
 
 type qRun struct {
-	q       queue.Queue[qItem]
-	mu      sync.Mutex
-	events  []map[string]any
-	ids     sync.Map // goid -> logical id
-	gates   map[int]chan struct{}
-	evCh    map[int]chan struct{}
-	state   map[int]string // consumer -> "in"|"parked"|"out"
+	q             queue.Queue[qItem]
+	mu            sync.Mutex
+	events        []map[string]any
+	ids           sync.Map // goid -> logical id
+	gates         map[int]chan struct{}
+	evCh          map[int]chan struct{}
+	state         map[int]string // consumer -> "in"|"parked"|"out"
 	pushes, pulls int
-	free    atomic.Bool
+	free          atomic.Bool
 }
 
 var curQRun atomic.Pointer[qRun]
